@@ -951,6 +951,9 @@ class Noise(EnvironmentFilter):
                 if self._action_noise and 'action' in new and new['action'] in actions:
                     new['action'] = noisy_actions[actions.index(new['action'])]
 
+                if self._action_noise and callable(new.get('feedbacks')):
+                    new['feedbacks'] = DiscreteReward(noisy_actions, list(map(new['feedbacks'],actions)))
+
             if 'rewards' in new:
                 rewards = new['rewards']
                 if is_callable: rewards = map(rewards,actions)
